@@ -100,7 +100,7 @@ PROPS["C10"] = {
         "architecture / language list: the template text is `<arch>;<list>` split at the FIRST ';'. Proved on the real arch/set_arch/clear_arch/languages/set_languages/clear_languages; the std string calls are trusted shims whose body is the original expression (prelude/tplshim.rs, strsplit.rs): split_once(';').map_or(..), splitn(2,';').collect(), format!(\"{};{}\"), format!(\"{}\", u16), and the list parser split(',').filter_map(parse).map(from_code).collect() with ONE assumed std fact: a list of u16 printed in decimal and joined by ',' parses back to the same list (axiom_parse_join)",
         "set_arch precondition of the get-after-set lemma: the architecture text contains no ';' (with a ';' in it the text after it is read back as language list -- the format has no escape; not claimed)",
         "string setters generic in S: Into<String> are verified at S = String (rule X3s: `.into()` is the identity; a &str caller goes through std's String::from)",
-        "set_uuid/uuid (package code) are NOT covered",
+        "uuid / set_uuid / clear_uuid: proved with full frame (exactly property 9 changes, to the braced upper-cased text of the UUID; the getter parses the stored text with every leading '{' and trailing '}' trimmed); the uuid crate is a model (prelude/uuidshim.rs: opaque value, uninterpreted formatter and parser) and 'the UUID reads back' rests on ONE assumed fact about that crate (axiom_uuid_roundtrip)",
     ],
 }
 
@@ -184,7 +184,8 @@ PROPS["C10"]["verus"]["readers"] = ["vx_read_whole", "PropertyValue::read", "Pro
                                     "lemma_pv_pair", "lemma_pv_pair_small", "lemma_pv_pair_i1", "lemma_pv_pair_i2", "lemma_pv_pair_str", "lemma_lpstr_layout", "lemma_pv_pair_time", "lemma_le32_rt", "lemma_le16_rt", "lemma_u64_halves", "lemma_i16_rt", "lemma_i32_rt", "lemma_i8_rt"]
 PROPS["C19"]["verus"]["queryfmt"] = ["Delete::fmt", "Insert::fmt", "Update::fmt", "Join::fmt", "Select::format_for_join", "Select::fmt"]
 PROPS["C07"]["verus"]["category"] = ["Category::validate", "lemma_blen_nonneg", "lemma_blen_empty", "lemma_blen_ends", "lemma_last_of"]
-PROPS["C10"]["verus"]["propset"] = SUMMARY_FNS + ["lemma_in_step_set_codepage", "lemma_in_step_insert", "lemma_in_step_remove"]
+PROPS["C10"]["verus"]["propset"] = SUMMARY_FNS + ["lemma_in_step_set_codepage", "lemma_in_step_insert", "lemma_in_step_remove",
+                                              "SummaryInfo::uuid", "SummaryInfo::set_uuid", "SummaryInfo::clear_uuid", "lemma_uuid_after_set"]
 PROPS["C10"]["verus"]["pspair"] = ["theorem_save_reopen", "lemma_ps_pair", "lemma_ps_cp", "lemma_ps_entry", "lemma_ps_header", "lemma_tab_at",
                                    "lemma_le32_at", "lemma_es_upto_mono", "lemma_in_step_entries", "lemma_read_in_step", "lemma_written_witness", "lemma_pair_witness",
                                    "lemma_pv_pair", "lemma_pv_pair_small", "lemma_pv_pair_i1", "lemma_pv_pair_i2", "lemma_pv_pair_str", "lemma_lpstr_layout", "lemma_pv_pair_time"]
